@@ -147,6 +147,13 @@ def run(ctx, rep):
     rep.rule("R7.7", "status 5 is issued exactly when the evaluation counter has reached maxfev: every budget test is `counter >= maxfev` on the truthful counter (shared with C05 R5.1)")
     from .c05 import r51
     r51(ctx, rep, rule="R7.7")
+    from ..report import Renamed
+    rep.rule("R7.8", "the feasibility test of the selection routine agrees with the one of the stopping tests (<= feasibility_tol) and the selection idioms hold (see C03 R3.2)")
+    from . import c03
+    c03.r32(ctx, Renamed(rep, to="R7.8"))
+    rep.rule("R7.9", "a supplied maxfev/maxiter is not overwritten by the completion of the options (see C19 R19.8)")
+    from . import c19
+    c19.r198(ctx, Renamed(rep, to="R7.9"), ctx.func(c19.OPT_FUNC), ctx.func(c19.CST_FUNC))
 
 
 def enum_members(ctx):
@@ -388,7 +395,11 @@ def raise_guard_conjuncts(node, fnode):
     return conj
 
 
+_BAD_POINT = []
+
+
 def check_raise_guards(ctx, rep, rule):
+    del _BAD_POINT[:]
     n = {"TargetSuccess": 0, "FeasibleSuccess": 0}
     for f in ctx.repo.funcs.values():
         for node in ast.walk(f.node):
@@ -449,7 +460,8 @@ def check_raise_guards(ctx, rep, rule):
                 what = "objective <= target and violation <= feasibility_tol" if cls == "TargetSuccess" else "feasibility problem and violation <= feasibility_tol"
                 rep.finding(rule, f, f"raise {cls} if {' and '.join(norm(c) for c in conj)}"[:200], node.lineno,
                             f"{cls} is raised under a guard that is not `{what}`"
-                            + (f" (see `{bad_op}`)" if bad_op else ""))
+                            + (f" (see `{bad_op}`)" if bad_op else "")
+                            + ("; the violation tested is not the one of the point just evaluated: `" + norm(_BAD_POINT[-1][1])[:60] + "`" if _BAD_POINT and _BAD_POINT[-1][0] is f else ""))
     for cls, k in n.items():
         if k < 2:
             raise AnalysisError(f"only {k} raise sites of {cls} (floor 2: initial sampling and main loop)")
@@ -462,11 +474,47 @@ def _plain_option(e):
     return isinstance(e, (ast.Name, ast.Attribute))
 
 
+def _evaluated_point_texts(ctx, f):
+    """normalised texts of the points at which f evaluates the problem
+    (argument of the evaluation routine, names expanded)"""
+    from ..inline import expander
+    inl = expander(ctx, f)
+    out = set()
+    for ev in ctx.events(f):
+        if ev.kind == "call" and any(t.kind == "repo" and t.name == T.EVAL for t in ev.targets) and ev.node.args:
+            a = ev.node.args[0]
+            out.add(norm(a))
+            out.add(norm(inl.expand(a, a)))
+    return out
+
+
+def _maxcv_point_ok(ctx, f, call):
+    """the violation used in a stopping test is the one of the evaluated point"""
+    from ..inline import expander
+    pts = _evaluated_point_texts(ctx, f)
+    if not pts or not call.args:
+        return True
+    inl = expander(ctx, f)
+    a = call.args[0]
+    ta = {norm(a), norm(inl.expand(a, a))}
+    if ta & pts:
+        return True
+    # the same point expression up to the loop index (initial sampling: point(0) before the loop, point(k) inside)
+    import re as _re
+    gen = {_re.sub(r"\b\d+\b", "#", x) for x in pts} | {_re.sub(r"\(\w\)", "(#)", x) for x in pts}
+    ga = {_re.sub(r"\b\d+\b", "#", x) for x in ta} | {_re.sub(r"\(\w\)", "(#)", x) for x in ta}
+    return bool(gen & ga)
+
+
 def _is_maxcv_value(ctx, f, e, at):
     """The compared value is a maximum constraint violation: a call of a
-    maxcv method or a variable defined by one."""
+    maxcv method or a variable defined by one - computed at the evaluated
+    point."""
     for sub in ast.walk(e):
         if isinstance(sub, ast.Call) and isinstance(sub.func, ast.Attribute) and sub.func.attr == "maxcv":
+            if not _maxcv_point_ok(ctx, f, sub):
+                _BAD_POINT.append((f, sub))
+                return False
             return True
     if isinstance(e, ast.Name):
         cfg = ctx.cfg(f)
